@@ -1,4 +1,5 @@
 """Shared anchors and helpers for rule files."""
+import re
 from engine import analysis as A
 from engine.model import match_def, op_place
 
@@ -332,6 +333,25 @@ _BINNAMES = {"AddWithOverflow": "add", "SubWithOverflow": "sub", "MulWithOverflo
              "Lt": "lt", "Le": "le", "Gt": "gt", "Ge": "ge", "Eq": "eq", "Ne": "ne", "BitAnd": "bitand", "BitOr": "bitor", "BitXor": "bitxor", "Shl": "shl", "Shr": "shr"}
 
 
+ASSOCIATIVE = {"add", "mul", "checked_add", "checked_mul", "min", "max", "bitand", "bitor"}
+
+
+def mk_call(nm, args):
+    """name(args) with commutative arguments sorted and associative nests flattened"""
+    if nm in ASSOCIATIVE:
+        flat = []
+        for a in args:
+            sc = split_call(a)
+            if sc and sc[0] == nm:
+                flat.extend(sc[1])
+            else:
+                flat.append(a)
+        args = flat
+    if nm in COMMUTATIVE:
+        args = sorted(args)
+    return "%s(%s)" % (nm, ",".join(args))
+
+
 def expr_tree(prog, f, o, depth=0, seen=None, inline=0):
     """String form of the expression computing operand o in f.  Locals with several definitions become
     phi(a|b); params are p<N>[.field...]; named constants their int value or name; calls name(args)."""
@@ -356,10 +376,20 @@ def expr_tree(prog, f, o, depth=0, seen=None, inline=0):
     p = op_place(o)
     if p is None:
         return "?"
-    flds = [e["n"] if e.get("n") else str(e["f"]) for e in p.get("p", []) if isinstance(e, dict) and "f" in e and not _wrapper_owner(e.get("o"))]
+    flds = []
+    for e in p.get("p", []):
+        if not isinstance(e, dict):
+            continue
+        if "f" in e:
+            if not _wrapper_owner(e.get("o")):
+                flds.append(e["n"] if e.get("n") else str(e["f"]))
+        elif "i" in e:
+            flds.append("[%s]" % _local_tree(prog, f, e["i"], [], depth + 1, seen, inline))
+        elif "ci" in e:
+            flds.append("[%s%s]" % ("-" if e.get("fe") else "", e["ci"]))
     l = p["l"]
     if 1 <= l <= f.argc and not _assigned(f, l):
-        return "p%d%s" % (l, "".join("." + x for x in flds))
+        return "p%d%s" % (l, _sfx(flds))
     return _local_tree(prog, f, l, flds, depth, seen, inline)
 
 
@@ -368,7 +398,7 @@ def _wrapper_owner(o):
 
 
 def _sfx(flds):
-    return "".join("." + x for x in flds)
+    return "".join(x if x.startswith("[") else "." + x for x in flds)
 
 
 def _assigned(f, l):
@@ -378,7 +408,7 @@ def _assigned(f, l):
 def _local_tree(prog, f, l, flds, depth, seen, inline):
     defs = f.local_defs().get(l) or []
     if not defs:
-        return "p%d%s" % (l, "".join("." + x for x in flds)) if 1 <= l <= f.argc else "undef"
+        return "p%d%s" % (l, _sfx(flds)) if 1 <= l <= f.argc else "undef"
     if l in seen:
         return "loop"
     seen = seen | {l}
@@ -398,12 +428,15 @@ def _local_tree(prog, f, l, flds, depth, seen, inline):
                 outs.append(t_ + (_sfx(flds) if flds else ""))
                 continue
             if nm in A.UNWRAP_CALLS and t["args"]:
-                outs.append(expr_tree(prog, f, t["args"][0], depth + 1, seen, inline))
+                t0 = expr_tree(prog, f, t["args"][0], depth + 1, seen, inline)
+                if nm in ("unwrap_or", "unwrap_or_else") and len(t["args"]) == 2:
+                    t1 = expr_tree(prog, f, t["args"][1], depth + 1, seen, inline)
+                    outs.append("phi(%s)" % "|".join(sorted({t0, t1})))
+                else:
+                    outs.append(t0)
                 continue
             args = [expr_tree(prog, f, a, depth + 1, seen, inline) for a in t["args"]]
-            if nm in COMMUTATIVE:
-                args = sorted(args)
-            outs.append("%s(%s)%s" % (nm, ",".join(args), _sfx(flds)))
+            outs.append(mk_call(nm, args) + _sfx(flds))
             continue
         s = f.blocks[bi]["s"][si]
         if s["d"].get("p"):
@@ -430,9 +463,7 @@ def rvalue_tree(prog, f, v, flds=(), depth=0, seen=frozenset(), inline=0):
     if r == "bin":
         nm = _BINNAMES.get(v["op"], v["op"].lower())
         args = [expr_tree(prog, f, a, depth + 1, seen, inline) for a in v["a"]]
-        if nm in COMMUTATIVE:
-            args = sorted(args)
-        return "%s(%s)" % (nm, ",".join(args))
+        return mk_call(nm, args)
     if r == "un":
         return "%s(%s)" % (v["op"].lower(), expr_tree(prog, f, v["a"][0], depth + 1, seen, inline))
     if r == "agg":
@@ -441,7 +472,16 @@ def rvalue_tree(prog, f, v, flds=(), depth=0, seen=frozenset(), inline=0):
         if flds and v.get("ak") == "tuple" and flds[0].isdigit() and int(flds[0]) < len(v["a"]):
             return expr_tree(prog, f, v["a"][int(flds[0])], depth + 1, seen, inline) + _sfx(flds[1:])
         nm = (v.get("adt") or v.get("ak") or "agg").split("::")[-1] + ("::" + v["variant"] if v.get("variant") else "")
-        return "%s{%s}" % (nm, ",".join(expr_tree(prog, f, a, depth + 1, seen, inline) for a in v["a"]))
+        caps = [expr_tree(prog, f, a, depth + 1, seen, inline) for a in v["a"]]
+        if inline and v.get("ak") == "closure" and v.get("def") is not None:
+            g = prog.fns.get(f.dinfo(v["def"])["key"])
+            if g is not None and depth < 30:
+                body = _local_tree(prog, g, 0, [], depth + 1, frozenset(), inline)
+                # captured upvars appear in the closure body as p1.<i>
+                for i in sorted(range(len(caps)), reverse=True):
+                    body = re.sub(r"(?<![\w.])p1\.%d(?![\w])" % i, lambda m_, c=caps[i]: c, body)
+                return "closure{%s}" % body
+        return "%s{%s}" % (nm, ",".join(caps))
     if r == "discr":
         return "discr(%s)" % expr_tree(prog, f, {"c": v["pl"]}, depth + 1, seen, inline)
     return r
@@ -604,7 +644,7 @@ def bool_paths(prog, f, limit=256):
                 ci = f.dinfo(t["res"]) if t.get("res") is not None else (f.dinfo(t["raw"]) if "raw" in t else None)
                 args = [expr_tree(prog, f, a) for a in t["args"]]
                 nm = ci["name"] if ci else "indirect"
-                val = "%s(%s)" % (nm, ",".join(sorted(args) if nm in COMMUTATIVE else args))
+                val = mk_call(nm, args)
         return val
 
     def walk(b, conds, blocks, seen):
